@@ -45,7 +45,10 @@ RULE = (
     "{3, number_of_bins, number_of_bins+3, last admissible start, first inadmissible}: windows without any "
     "energy are scanned and are no candidates. words family: every word over {0,1,3,NaN}^6 x 2 grids x layouts x "
     "conventions x parameter sets {default, all}. 2d family: every single bin / adjacent pair / mirror pair of "
-    "the N=8 and N=12 direction grids. A member is non-trivial when E_eq > 0 and the oracle for its method "
+    "the N=8 and N=12 direction grids x variant {plain; one limb bin overshoots (unique arg-max of E f^4) and "
+    "one energy-free direction cell of that bin is NaN; the f^-4 range ends inside the grid so that exactly one "
+    "scanned window lies in it and one energy-free direction cell of a bin of that window is NaN} - a NaN "
+    "direction cell is a missing cell, the reduction runs over the valid cells. A member is non-trivial when E_eq > 0 and the oracle for its method "
     "applies (mean: an admissible clean window inside the f^-4 range with margin); distinct = distinct "
     "(family, grid, scan, limb, end, NaN class, it, c, direction, method) resp. (grid, word, method) resp. "
     "(N, bin configuration, method)."
@@ -67,7 +70,7 @@ ASSUMPTIONS = [
 REQUIRED_CATEGORIES = [
     "peak_compared", "mean_compared", "mean_not_applicable", "mean_nan_window_competes", "peak_overshoot_differs_from_c",
     "nan_bin", "coming_from_compared", "nondefault_params", "layout_time_lat", "layout_flat", "layout_scalar",
-    "two_d_single_bin", "two_d_pair", "words_peak_compared", "words_tie_or_zero_trivial", "scaling_compared",
+    "two_d_single_bin", "two_d_pair", "two_d_partial_nan_row", "words_peak_compared", "words_tie_or_zero_trivial", "scaling_compared",
     "zero_window_scanned_and_range_admissible", "u10_loglaw_compared", "direction_q1", "direction_q2", "direction_q3", "direction_q4", "range_ends_inside_grid",
     "wrap_seam",
 ]
@@ -184,7 +187,7 @@ def classify_member(f, e, a1, b1, it, it_end, n_starts, nb):
             if not (a1[k] == a1[k] and b1[k] == b1[k]) or math.hypot(a1[k], b1[k]) <= 1e-9:
                 okdir = False
             else:
-                dirs.add(round(going_to(a1[k], b1[k]), 9))
+                dirs.add(round(going_to(a1[k], b1[k]), 9) % 360.0)
         out["peak_dirs"] = sorted(dirs) if okdir else None
     else:
         out["peak_level"] = 0.0
@@ -241,7 +244,8 @@ def units(tier):
         for part in range(4):
             us.append({"name": f"words:{wg}:{part}", "kind": "words", "grid": wg, "part": part, "cost": 3})
     for n in (8, 12):
-        us.append({"name": f"2d:N{n}", "kind": "2d", "N": n, "cost": 4})
+        for variant in TWO_D_VARIANTS:
+            us.append({"name": f"2d:N{n}:{variant}", "kind": "2d", "N": n, "variant": variant, "cost": 4})
     us.append({"name": "wrap", "kind": "wrap", "cost": 1})
     return us
 
@@ -659,14 +663,19 @@ def run_words(unit):
 # ------------------------------------------------------------------------------------------
 # 2D family
 # ------------------------------------------------------------------------------------------
+TWO_D_VARIANTS = ["plain", "nan_cell_in_peak_bin", "nan_cell_in_only_window"]
+
+
 def reduce_2d(e2, d):
-    """Independent 1D reduction of (nf, nd) densities on a uniform direction grid."""
+    """Independent 1D reduction of (nf, nd) densities on a uniform direction grid; a NaN direction
+    cell is a missing cell and contributes nothing (a frequency without any valid cell has e = 0)."""
     nd = len(d)
     dth = 360.0 / nd
-    e = np.sum(e2 * dth, axis=-1)
+    v = np.where(np.isnan(e2), 0.0, e2)
+    e = np.sum(v * dth, axis=-1)
     with np.errstate(invalid="ignore", divide="ignore"):
-        a1 = np.sum(e2 * np.cos(np.radians(d)) * dth, axis=-1) / e
-        b1 = np.sum(e2 * np.sin(np.radians(d)) * dth, axis=-1) / e
+        a1 = np.sum(v * np.cos(np.radians(d)) * dth, axis=-1) / e
+        b1 = np.sum(v * np.sin(np.radians(d)) * dth, axis=-1) / e
     return e, a1, b1
 
 
@@ -679,9 +688,20 @@ def run_2d(unit):
     nf = len(f)
     fmax, nb = 0.5, 20
     n_starts = n_window_starts(f, fmax, nb)
-    it = n_starts // 2
+    variant = unit.get("variant", "plain")
     c0 = 2e-4
-    e1, _, _ = tail_member(f, it, nf - 1, c0, 0.0, "below", None)
+    if variant == "nan_cell_in_peak_bin":
+        # one limb bin overshoots (unique arg-max of E f^4); a direction cell of that bin is NaN
+        it, it_end, limb = n_starts // 2, nf - 1, "overshoot"
+        nan_row = it - 3
+    elif variant == "nan_cell_in_only_window":
+        # the f^-4 range holds exactly one scanned window; a direction cell inside it is NaN
+        it, limb = n_starts - 1, "below"
+        it_end = it + nb + 1
+        nan_row = it + 5
+    else:
+        it, it_end, limb, nan_row = n_starts // 2, nf - 1, "below", None
+    e1, _, _ = tail_member(f, it, it_end, c0, 0.0, limb, None)
     k = np.arange(nf)
     configs = []  # (name, tail weights {bin: w}, limb bin)
     for j in range(N):
@@ -699,21 +719,34 @@ def run_2d(unit):
         for jb, w in wts.items():
             E2[i, k >= it, jb] = w * e1[k >= it] / dth
         E2[i, k < it, lb] = e1[k < it] / dth
+        if nan_row is not None:
+            # a cell that holds no energy: the reduction of the valid cells is unchanged
+            empty = [j for j in range(N) if E2[i, nan_row, j] == 0.0]
+            E2[i, nan_row, empty[i % len(empty)]] = np.nan
+            c.cat("two_d_partial_nan_row")
     E1 = np.empty((n, nf)); A1 = np.empty((n, nf)); B1 = np.empty((n, nf))
     info = []
     for i in range(n):
         E1[i], A1[i], B1[i] = reduce_2d(E2[i], d)
-        m = classify_member(f, E1[i], A1[i], B1[i], it, nf - 1, n_starts, nb)
-        m["theta"] = going_to(float(A1[i, -1]), float(B1[i, -1]))
+        m = classify_member(f, E1[i], A1[i], B1[i], it, it_end, n_starts, nb)
+        m["theta"] = going_to(float(A1[i, it]), float(B1[i, it]))
         info.append(m)
     if any(m["mean_class"] != "regular" for m in info):
         raise AssertionError("2d family: the reduced spectra are expected to be regular for the mean method")
     theta = np.array([m["theta"] for m in info])
     peak_level = np.array([m["peak_level"] for m in info])
-    quadrant_cats(c, theta)
+    if any(m["peak_dirs"] is not None and len(m["peak_dirs"]) != 1 for m in info):
+        raise AssertionError("2d family: at most one admissible peak direction is expected")
+    # NaN = ill-conditioned (resultant <= 1e-9, e.g. two opposite bins): classified, not compared
+    peak_theta = np.array([m["peak_dirs"][0] if m["peak_dirs"] else np.nan for m in info])
+    theta = np.where(np.hypot(A1[:, it], B1[:, it]) > 1e-9, theta, np.nan)
+    c.cat("two_d_direction_ill_conditioned", int(np.sum(np.isnan(theta))))
+    if variant == "nan_cell_in_peak_bin" and not np.all(peak_level > 1.5 * c0):
+        raise AssertionError("2d family: the overshooting bin is expected to be the peak")
+    quadrant_cats(c, theta[np.isfinite(theta)])
     c.cat("two_d_single_bin", N)
     c.cat("two_d_pair", n - N)
-    ukey = {"family": "2d", "N": N}
+    ukey = {"family": "2d", "N": N, "variant": variant}
     c.case(dict(ukey, configs=[x[0] for x in configs]))
     c.sample(dict(ukey, config=configs[N + 1][0], reduced_direction=float(theta[N + 1]), it=it, c=c0))
     seam = np.array([name.startswith("mirror_east") for name, _, _ in configs])
@@ -757,14 +790,17 @@ def run_2d(unit):
                         going = dr_chk
                     ref = ustar_ref(peak_level if method == "peak" else np.full(n, c0), p)
                     c.cat("peak_compared" if method == "peak" else "mean_compared", n)
-                    dir_ref = theta if convention == CONVENTIONS[0] else (270.0 - theta) % 360.0
+                    dir_ref = peak_theta if method == "peak" else theta
+                    if convention == CONVENTIONS[1]:
+                        dir_ref = (270.0 - dir_ref) % 360.0
                     bad = ~close(us, ref, rtol=1e-12)
                     if np.any(bad):
                         i, nbad = first_bad(bad)
                         c.violation(dict(key, check="closed form"),
                                     f"2D {configs[i][0]}: u*={us[i]!r}, closed form for the 1D reduction {ref[i]!r} ({nbad} members)",
                                     member=i, count=nbad, config=configs[i][0])
-                    bad = ~(angle_diff(dr, dir_ref) <= 1e-9)
+                    well = np.isfinite(dir_ref)
+                    bad = well & ~(angle_diff(dr, dir_ref) <= 1e-9)
                     if np.any(bad):
                         i, nbad = first_bad(bad)
                         c.violation(dict(key, check="direction"),
@@ -773,14 +809,15 @@ def run_2d(unit):
                     # the library's answer for the independently reduced 1D spectrum
                     r1 = call(c, dict(key, input="1d reduction"), s1, method, convention, kw)
                     if r1 is not None:
-                        bad = ~(close(us, r1[0], rtol=1e-12) & close(u10, r1[2], rtol=1e-12) & (angle_diff(dr, r1[1]) <= 1e-9))
+                        bad = ~(close(us, r1[0], rtol=1e-12) & close(u10, r1[2], rtol=1e-12)
+                                & (~well | (angle_diff(dr, r1[1]) <= 1e-9)))
                         if np.any(bad):
                             i, nbad = first_bad(bad)
                             c.violation(dict(key, check="2d vs 1d reduction"),
                                         f"2D {configs[i][0]}: (u*, dir, u10)=({us[i]!r},{dr[i]!r},{u10[i]!r}) but the 1D reduction "
                                         f"gives ({r1[0][i]!r},{r1[1][i]!r},{r1[2][i]!r}) ({nbad} members)", member=i, count=nbad)
                     for i in range(n):
-                        c.nontriv((N, configs[i][0], method))
+                        c.nontriv((N, variant, configs[i][0], method))
     if seam_bad:
         c.violation(dict(ukey, check="direction in [0,360)", cls="tiny_negative_angle", input="mirror_east"),
                     f"2D spectrum symmetric about east: direction {seam_example['direction']!r} is not in [0,360) "
